@@ -1,15 +1,437 @@
 /-
-C14 — a multicast reaches exactly the chosen network level, unacknowledged (statements in progress).
+C14 — "A multicast reaches exactly the chosen network level, unacknowledged."
+
+multicast() to level L (0..4, by default the sender's own level) is received once by every other
+listening node of level L that allows multicast and by no node of any other level, from whichever
+node it is sent; it is transmitted without requesting radio acknowledgements and no receiver
+acknowledges it.  A receiving node on levels 1..3 with multicast_relay enabled re-broadcasts the
+frame once to the next level and still queues it for its own application.  Nodes configured with
+allow_multicast off do not listen on the shared level address.
+
+Model: `NrfModel/Net/Api.lean` (`apiMulticast`), `NrfModel/Net/Node.lean` (`nodeWrite`,
+`nodeWriteToPipe`, `handleOther`, `enqueueFrameBuf`), `NrfModel/Air.lean` (`Radio.listensTo`,
+`Radio.receive`, `World.deliver`, `World.cycle`), `NrfModel/Rf24.lean`.
+Spec: `NrfModel/Spec/Multicast.lean` (`targetLevel`, `Listening`, `McPacket`, `Compatible`),
+`NrfModel/Spec/Tree.lean` (`levelAddrSpec`, `listenSpec`).
+
+How the clauses of the property are covered
+* sender side (`C14_address`, `C14_too_long`, `C14_no_loopback`, `C14_unacknowledged`): for **every**
+  node state with an existing radio — any own address, the master and 0o1 included —, every
+  admissible prefix/suffix, every level argument (any `int` or `None`), every message;
+* medium (`C14_receivers`, `C14_nobody_acks`): for **every** world whose other radios are the radios
+  of listening network nodes (the per-node listening predicate `Spec.Multicast.Listening`, which C07
+  proves invariant) or are not receiving at all; every packet on the level address;
+* receiver side (`C14_queued_once`: RX FIFO → `RF24.read()` → `_net_update()` → queue, open system;
+  `C14_handle`, `C14_handle_poll`, `C14_handle_off`, `C14_relay_address`): for every
+  state of a receiving node and — for the queue clause — every behaviour of the other nodes in the
+  closed system (frame theorem, `NrfProofs/NetFrameAllK.lean`);
+* `C14_off`: pure, all 781 nodes, all admissible configurations.
+
+What is *not* claimed (DESIGN §4.2/§7): collisions of simultaneous relays on real air; in the
+*closed* system, that the sender's EN_AA / TX_ADDR stay as programmed until the packet leaves the
+radio while other nodes run in between (isolation of radios: C07's subject) — `C14_air_open`
+proves it end to end for the open system, where nothing runs in between.
 -/
-import NrfModel.Net.Api
+import NrfProofs.McastFrameK
+import NrfProofs.McastOpenK
+import NrfProofs.McastReadK
+import NrfProofs.LeaseJudge
+import NrfProps.C04
 
 namespace Nrf.Props.C14
-open Nrf Nrf.Net
+open Nrf Nrf.Net Nrf.NetK Nrf.Spec Nrf.Spec.Multicast Nrf.Proofs Nrf.Proofs.McastK
+open Nrf.Props.C04 (CfgOk)
 
-/-- a multicast is never translated into a routed hop: for every node and target, send type
-    TX_MULTICAST goes to the given address on pipe 0 flagged as multicast -/
-theorem C14_logi2phys_multicast (n : NodeAddr) (to : Nat) :
-    logi2phys n to TX_MULTICAST = (to, 0, true) := by
-  simp [logi2phys, TX_MULTICAST, TX_ROUTED]
+/-! ## the sender -/
+
+/-- what `multicast()` needs of the state it is called in: the call runs as an existing node whose
+    radio exists, the driver's shadow of TX_ADDR has its 5 bytes (true from `RF24.__init__` on),
+    admissible prefix / suffix bytes, `allow_multicast` on, a level attribute within 0..4 (what
+    `_begin` and the `multicast_level` setter produce) -/
+structure SenderOk (s : NetState) : Prop where
+  cur : HasCur s
+  radio : (drvOf s).Wf
+  shadow : ShadowOk (curNode s).rf
+  cfg : CfgOk (curNode s).cfg
+  allow : (curNode s).cfg.allowMulticast = true
+  level : (curNode s).a.netLvl ≤ 4
+
+/-- **C14, sender.**  `multicast(msg, type, level)` on any such node, for every `level ∈ ℤ ∪ {None}`
+    and every message within `max_message_length`: with `L` = the level clamped to 0..4 / the
+    node's own level, the call *is* "transmit `frame_buf`, then listen again" from a state `st` in
+    which `frame_buf` holds `to_node = 0o100`, `from_node` = the own address, the type's low byte
+    and the message (cut to 24 bytes when fragmentation is off); the node's queue is untouched (no
+    loop-back, whatever the own address); the radio has EN_AA = 0x3E — acknowledgements off on pipe
+    0 —, TX_ADDR = the address of level `L` of the spec, CE low, PRIM_RX = 0, PWR_UP = 1; no
+    configuration register of another radio changed. -/
+theorem C14_address (s : NetState) (h : SenderOk s) (msg : Bytes) (ty : Int) (level : Option Int)
+    (hlen : msg.length ≤ (curNode s).maxMessageLength) :
+    ∃ x st, levelAddrSpec (curNode s).cfg.pfx (curNode s).cfg.sfx
+        (targetLevel (curNode s).a.netLvl level) = some x ∧
+      nexec (apiMulticast msg ty level) s =
+        nexec (do let r ← transmitFrameBuf (F - 2)
+                  liftRf (Rf24.setListen true)
+                  pure r) st ∧
+      (curNode st).frameBuf.header.toNode = MULTICAST_TO ∧
+      (curNode st).frameBuf.header.fromNode = (curNode s).a.addr ∧
+      (curNode st).frameBuf.header.msgType = .int (maskInt ty 0xFF) ∧
+      (curNode st).frameBuf.message = mcMessage (curNode s) msg ∧
+      (curNode st).queue = (curNode s).queue ∧
+      (drvOf st).Wf ∧ (drvOf st).d.rid = (drvOf s).d.rid ∧
+      (drvOf st).cfg.enAA = 0x3E ∧ (drvOf st).cfg.txAddr.take 5 = x ∧
+      (drvOf st).cfg.ce = false ∧ (drvOf st).cfg.config &&& 3 = 2 ∧
+      (∀ j, j ≠ (drvOf s).d.rid → (drvOf st).cfgAt j = (drvOf s).cfgAt j) := by
+  obtain ⟨x, st, h1, h2, h3, h4, h5, h6, h7, h8, h9, h10, h11, h12, h13, h14, -⟩ :=
+    multicast_spec msg ty level s h.cur h.radio h.shadow h.cfg h.allow h.level hlen
+  exact ⟨x, st, h1, h2, h3, h4, h5, h6, h7, h8, h9, h10, h11, h12, h13, h14⟩
+
+/-- node 0o1 (level 1) of a one-radio world: a sender to which the theorem applies; level 4 is a
+    legal explicit level and is not clamped to 3 (fix 5823040) -/
+def exSender : NetState :=
+  { nodes := [{ a := { addr := 0o1, netLvl := 1, mask := 7, maskInv := 0xFFF8, parent := 0, parentPipe := 1 } }],
+    w := World.fresh 1 }
+
+example : SenderOk exSender ∧ targetLevel 1 (some 4) = 4 ∧ targetLevel 1 (some 7) = 4 ∧
+    targetLevel 1 (some (-3)) = 0 ∧ targetLevel 1 none = 1 ∧
+    levelAddrSpec 0xCC [0xC3, 0x3C, 0x33, 0xCE, 0x3E, 0xE3] 1 = some [0xCC, 0x3C, 0xCC, 0xCC, 0xCC] :=
+  ⟨⟨by show (0 : Nat) < 1; omega, by show (0 : Nat) < 1; omega, ⟨by decide⟩, by decide, by decide, by decide⟩,
+   by decide, by decide, by decide, by decide, by decide⟩
+
+/-- **C14, on the air (open system, end to end).**  The same call in the open system (no other
+    node runs while the sender transmits), the radio using 5-byte addresses: every record that the
+    transmission of `frame_buf` — whole or in fragments, with all retries, however it ends —
+    appends to the air log is a packet of the sender's radio **to the address of the target level,
+    made as one single attempt that awaits no acknowledgement** (`McRec`). -/
+theorem C14_air_open (s : NetState) (h : SenderOk s) (msg : Bytes) (ty : Int) (level : Option Int)
+    (hlen : msg.length ≤ (curNode s).maxMessageLength)
+    (hopen : s.closed = false) (haw : (drvOf s).cfg.aw = 5) :
+    ∃ x st, levelAddrSpec (curNode s).cfg.pfx (curNode s).cfg.sfx
+        (targetLevel (curNode s).a.netLvl level) = some x ∧
+      nexec (apiMulticast msg ty level) s =
+        nexec (do let r ← transmitFrameBuf (F - 2)
+                  liftRf (Rf24.setListen true)
+                  pure r) st ∧
+      ∃ news, (nexec (transmitFrameBuf (F - 2)) st).2.w.air = st.w.air ++ news ∧
+        ∀ a ∈ news, a.sender = (curNode s).rf.rid ∧ a.attempts = 1 ∧ a.ok = true ∧ a.pkt.addr = x :=
+  multicast_air_open msg ty level s h.cur h.radio h.shadow h.cfg h.allow h.level hlen hopen haw
+
+example : ({ exSender with closed := false } : NetState).closed = false ∧
+    (drvOf { exSender with closed := false }).cfg.aw = 5 ∧ SenderOk { exSender with closed := false } :=
+  ⟨rfl, by decide, ⟨by show (0 : Nat) < 1; omega, by show (0 : Nat) < 1; omega, ⟨by decide⟩, by decide,
+    by decide, by decide⟩⟩
+
+/-- a message longer than `max_message_length`: `ValueError`, and nothing at all has happened -/
+theorem C14_too_long (s : NetState) (msg : Bytes) (ty : Int) (level : Option Int)
+    (hlen : msg.length > (curNode s).maxMessageLength) :
+    nexec (apiMulticast msg ty level) s = (.error .valueError, s) := by
+  rw [nexec_apiMulticast, if_pos hlen]
+
+example : (List.replicate 145 0 : Bytes).length > (curNode exSender).maxMessageLength := by
+  rw [List.length_replicate]; decide
+
+/-- **C14, no loop-back** (fix f24077b), closed system included: whatever the target address —
+    also the sender's own logical address, as for node 0o1 multicasting to level 1 and the master
+    to level 0 —, whatever other nodes do while the sender transmits, however the call ends: a
+    `_write(…, TX_MULTICAST)` leaves the sender's own queue as it was. -/
+theorem C14_no_loopback (f tgt : Nat) (s : NetState) (g : Good s) :
+    (curNode (nexec (nodeWrite f tgt TX_MULTICAST) s).2).queue = (curNode s).queue :=
+  nodeWrite_multicast_queue f tgt s g
+
+example : Good { exSender with active := [0] } ∧ lvl2addr 1 = (curNode exSender).a.addr :=
+  ⟨⟨by decide, by decide⟩, by decide⟩
+
+/-- **C14, unacknowledged transmission** (radio, for every world and fault pattern): the transmit
+    cycle of a radio whose EN_AA bit 0 is clear — EN_AA = 0x3E as programmed above — awaits no
+    acknowledgement: exactly one attempt on the air, to `TX_ADDR[0:aw]`, reported as sent (TX_DS
+    latched, payload removed from the TX FIFO). -/
+theorem C14_unacknowledged (w : World) (s : Nat) (e : TxEntry) (rest : List TxEntry)
+    (hs : s < w.radios.length) (h : (w.radio s).enAA = 0x3E) :
+    (w.radio s).awaitsAck e = false ∧
+    (w.cycle s e rest).air =
+      w.air ++ [{ sender := s, pkt := (w.radio s).packetFor e, attempts := 1, ok := true }] ∧
+    ((w.radio s).packetFor e).addr = (w.radio s).txAddr.take (w.radio s).aw ∧
+    ((w.cycle s e rest).radio s).txFifo = rest ∧
+    ((w.cycle s e rest).radio s).flags &&& 0x20 = 0x20 := by
+  have hb : Radio.bit (w.radio s).enAA 0 = false := by rw [h]; decide
+  exact ⟨awaitsAck_false _ _ hb, cycle_noAck w s e rest hs hb⟩
+
+example : ((World.fresh 2).setRadio 0 { enAA := 0x3E }).radios.length = 2 ∧
+    (((World.fresh 2).setRadio 0 { enAA := 0x3E }).radio 0).enAA = 0x3E := by decide
+
+/-! ## the medium -/
+
+/-- **C14, who receives, and that nobody acknowledges** (one radio).  Let `r` be the radio of a
+    listening network node sitting on tree node `ds` with `allow_multicast = am` (`Listening`), `x`
+    the address of level `L ≤ 4` (also `L = 5`, which a level-4 relay would address), `k` a packet
+    on `x` in Enhanced-ShockBurst format with dynamic length, on the radio's channel / rate / CRC.
+    Then
+
+    * `r` takes the packet — on pipe 0 — **iff** the node allows multicast and sits on level `L`
+      (or: it does not allow multicast, is the master, and `L = 0`: the master's private pipe-0
+      address *is* the level-0 address in this addressing scheme);
+    * `r` never acknowledges it;
+    * the payload is stored once, on pipe 0, iff moreover the RX FIFO has room and the packet is
+      not a repetition of the last accepted one; otherwise the radio is unchanged. -/
+theorem C14_receivers {pfx : Nat} {sfx : List Nat} (hc : CfgOk { pfx := pfx, sfx := sfx })
+    {am : Bool} {ds : List Nat} (hn : IsNode ds) {r : Radio} (hl : Listening pfx sfx am ds r)
+    {L : Nat} (hL : L ≤ 5) {x : Bytes} (hx : levelAddrSpec pfx sfx L = some x)
+    {k : Packet} (hk : McPacket x k) (hcomp : Compatible r k) :
+    (r.listensTo k = if HoldsLevel am ds L then some 0 else none) ∧
+    (r.receive k).2 = none ∧
+    (r.receive k).1.rxFifo =
+      (if HoldsLevel am ds L ∧ r.rxFifo.length < 3 ∧
+          r.lastRx ≠ some { pid := k.pid, addr := k.addr, data := k.data }
+        then r.rxFifo ++ [{ pipe := 0, data := k.data }] else r.rxFifo) ∧
+    (¬ (HoldsLevel am ds L ∧ r.rxFifo.length < 3 ∧
+          r.lastRx ≠ some { pid := k.pid, addr := k.addr, data := k.data }) → (r.receive k).1 = r) := by
+  have hc' : SfxOk pfx sfx := hc
+  have hx' : x = levelFn pfx (sfxFn sfx) L := by
+    rw [levelAddrSpec_fn (sfxFn_spec hc'.1) hL] at hx
+    exact (Option.some.inj hx).symm
+  subst hx'
+  exact ⟨listensTo_level hl hc' hn hL hk hcomp, receive_level hl hc' hn hL hk hcomp⟩
+
+/-- `HoldsLevel` in words -/
+example (am : Bool) (ds : List Nat) (L : Nat) :
+    HoldsLevel am ds L ↔ (am = true ∧ ds.length = L) ∨ (am = false ∧ ds = [] ∧ L = 0) := Iff.rfl
+
+/-- … and it is the executable spec function the harness' judge evaluates through the driver
+    (`spechold`) -/
+theorem C14_holds_spec (am : Bool) (ds : List Nat) (L : Nat) :
+    holdsLevel am ds L = true ↔ HoldsLevel am ds L := by
+  unfold holdsLevel HoldsLevel
+  cases am <;> simp [List.isEmpty_iff]
+
+example : holdsLevel true [3, 2] 2 = true ∧ holdsLevel true [3, 2] 1 = false ∧
+    holdsLevel false [] 0 = true ∧ holdsLevel false [3] 1 = false := by decide
+
+/-- a radio as `_begin(0o23)` leaves it (default prefix / suffix, `allow_multicast`) satisfies
+    `Listening`; so does one of a node that does not allow multicast -/
+def exRadio : Radio :=
+  { config := 0x0F, enAA := 0x3E, enRxAddr := 0x3F, ce := true, feature := 5, dynpd := 0x3F,
+    rxAddr0 := [0xCC, 0x33, 0xCC, 0xCC, 0xCC], rxAddr1 := [0x3C, 0xCE, 0x33, 0xCC, 0xCC],
+    rxAddrN := [0x33, 0xCE, 0x3E, 0xE3] }
+
+example : Listening 0xCC [0xC3, 0x3C, 0x33, 0xCE, 0x3E, 0xE3] true [3, 2] exRadio ∧ IsNode [3, 2] ∧
+    HoldsLevel true [3, 2] 2 ∧ ¬ HoldsLevel true [3, 2] 1 := by
+  refine ⟨⟨by decide, ?_, by decide, ?_, by decide, ?_⟩, by decide, by decide, by decide⟩
+  · intro p hp
+    have : p = 0 ∨ p = 1 ∨ p = 2 ∨ p = 3 ∨ p = 4 ∨ p = 5 := by omega
+    rcases this with rfl | rfl | rfl | rfl | rfl | rfl <;> decide
+  · intro p hp
+    have : p = 0 ∨ p = 1 ∨ p = 2 ∨ p = 3 ∨ p = 4 ∨ p = 5 := by omega
+    rcases this with rfl | rfl | rfl | rfl | rfl | rfl <;> decide
+  · intro p hp
+    have : p = 0 ∨ p = 1 ∨ p = 2 ∨ p = 3 ∨ p = 4 ∨ p = 5 := by omega
+    rcases this with rfl | rfl | rfl | rfl | rfl | rfl <;> decide
+
+/-- every radio other than the sender's is the radio of some listening network node configured
+    like the sender, or is not in RX mode (transmitting, powered down) -/
+def Populated (pfx : Nat) (sfx : List Nat) (w : World) (s : Nat) (k : Packet) : Prop :=
+  ∀ i, i < w.radios.length → i ≠ s →
+    (w.radio i).rxMode = false ∨
+    ∃ am ds, IsNode ds ∧ Listening pfx sfx am ds (w.radio i) ∧ Compatible (w.radio i) k
+
+/-- **C14, nobody acknowledges** (the world).  A packet on a level address delivered into a
+    populated world: no acknowledgement comes back, and every radio ends as its own reception says
+    (`C14_receivers`), the sender's untouched. -/
+theorem C14_nobody_acks {pfx : Nat} {sfx : List Nat} (hc : CfgOk { pfx := pfx, sfx := sfx })
+    {L : Nat} (hL : L ≤ 5) {x : Bytes} (hx : levelAddrSpec pfx sfx L = some x)
+    (w : World) (s : Nat) {k : Packet} (hk : McPacket x k) (hp : Populated pfx sfx w s k) :
+    (w.deliver s k).2 = none ∧
+    ∀ i, i < w.radios.length →
+      (w.deliver s k).1.radio i = if i = s then w.radio i else ((w.radio i).receive k).1 := by
+  refine ⟨deliver_ack_none w s k ?_, fun i hi => radio_deliver w s k i hi⟩
+  intro i hi hne
+  rcases hp i hi hne with h | ⟨am, ds, hn, hl, hcomp⟩
+  · rw [receive_not_rx h]
+  · exact (C14_receivers hc hn hl hL hx hk hcomp).2.1
+
+example : Populated 0xCC [0xC3, 0x3C, 0x33, 0xCE, 0x3E, 0xE3] (World.fresh 3) 0
+    { ch := 76, rate := 0, crc := 2, esb := true, dpl := true, addr := [0xCC, 0x33, 0xCC, 0xCC, 0xCC],
+      pid := 0, noAck := false, data := [1] } := by
+  intro i hi _
+  left
+  have : i = 0 ∨ i = 1 ∨ i = 2 := by
+    have : (World.fresh 3).radios.length = 3 := rfl
+    omega
+  rcases this with rfl | rfl | rfl <;> decide
+
+/-! ## the receiver -/
+
+/-- **C14, a received multicast is queued once; relayed iff the relay is on; still queued.**
+    `frame_buf` holds a frame with `to_node = 0o100` on a node with `allow_multicast` (and the
+    frame is not a NETWORK_POLL that the node must answer).  Then `_handle_frame_for_other_node`
+
+    * calls `queue.enqueue(frame_buf)` exactly once, before anything is sent;
+    * iff `multicast_relay` is on, re-broadcasts the frame once (`_write(…, TX_MULTICAST)` after the
+      two collision-avoidance sleeps) to `(_lvl_2_addr(level) << 3) & 0xFFFF` — the address of the
+      next level, `C14_relay_address`;
+    * returns `(True, type)`, or `(False, NETWORK_EXT_DATA)` for external data;
+
+    and afterwards — however the call ends, whatever the other nodes of a closed system did
+    meanwhile — the node's queue is the old queue with the frame enqueued once. -/
+theorem C14_handle (f msgT : Nat) (s : NetState)
+    (ham : (curNode s).cfg.allowMulticast = true)
+    (hto : (curNode s).frameBuf.header.toNode = MULTICAST_TO)
+    (hpoll : ¬ (msgT = NETWORK_POLL ∧ (curNode s).a.addr ≠ NETWORK_DEFAULT_ADDR)) :
+    nexec (handleOther (f + 1) msgT) s =
+      nexec (do
+        let _ ← enqueueFrameBuf
+        if (curNode s).relayEnabled then relayMulticast f (curNode s)
+        let n' ← getNode
+        pure (if n'.frameBuf.header.ty = NETWORK_EXT_DATA then (false, NETWORK_EXT_DATA) else (true, msgT))) s ∧
+    (Good s →
+      (curNode (nexec (handleOther (f + 1) msgT) s).2).queue =
+        ((curNode s).queue.enqueue (curNode s).frameBuf).1 ∧
+      (curNode (nexec (handleOther (f + 1) msgT) s).2).a = (curNode s).a) := by
+  refine ⟨nexec_handleOther_multicast f msgT s ham hto hpoll, fun g => ?_⟩
+  have := handleOther_multicast_queue f msgT s g ham hto hpoll
+  exact ⟨this.1, this.2.1⟩
+
+/-- **C14, from the radio to the application queue: received once, queued once** (open system,
+    relay off).  The node is between calls (`RxNode`: it runs as an existing node, nothing is
+    scripted, its radio is receiving with dynamic payloads); its radio holds exactly one received
+    payload (what `C14_receivers` puts there for a packet on the node's level address): a frame for
+    `0o100` from a valid address that is not a poll to be answered.  Then `_net_update()` reads it
+    (`RF24.read()`: the whole payload, removed from the FIFO), runs `_handle_frame_for_other_node` on
+    it, and returns: the frame is in the node's queue **once** (`NetQueue.enqueue`), the RX FIFO is
+    empty, nothing was transmitted. -/
+theorem C14_queued_once (f rv : Nat) (s : NetState) (h : RxNode s)
+    (e : RxEntry) (hf : (s.w.radio (curNode s).rf.rid).rxFifo = [e]) (hp : e.pipe ≤ 5)
+    (hl : 1 ≤ e.data.length)
+    (hok : ((curNode s).frameBuf.unpack e.data).2 = true)
+    (hto : ((curNode s).frameBuf.unpack e.data).1.header.toNode = MULTICAST_TO)
+    (hfrom : isValid ((curNode s).frameBuf.unpack e.data).1.header.fromNode = true)
+    (hself : (curNode s).a.addr ≠ MULTICAST_TO)
+    (ham : (curNode s).cfg.allowMulticast = true) (hrel : (curNode s).relayEnabled = false)
+    (hpoll : ¬ (((curNode s).frameBuf.unpack e.data).1.header.ty = NETWORK_POLL ∧
+      (curNode s).a.addr ≠ NETWORK_DEFAULT_ADDR)) :
+    (curNode (nexec (netUpdate (f + 4) rv) s).2).queue =
+      ((curNode s).queue.enqueue ((curNode s).frameBuf.unpack e.data).1).1 ∧
+    ((nexec (netUpdate (f + 4) rv) s).2.w.radio (curNode s).rf.rid).rxFifo = [] ∧
+    (nexec (netUpdate (f + 4) rv) s).2.w.air = s.w.air ∧
+    (∃ v, (nexec (netUpdate (f + 4) rv) s).1 = .ok v) :=
+  netUpdate_multicast_once f rv s h e hf hp hl hok hto hfrom hself ham hrel hpoll
+
+/-- a level-2 node (0o23) whose radio has just received a multicast frame from the master -/
+def exRxNode : NetState :=
+  { nodes := [{ a := { addr := 0o23, netLvl := 2, mask := 0o77, maskInv := 0xFFC0, parent := 0o3, parentPipe := 2 } }],
+    active := [0], closed := false,
+    w := (World.fresh 1).setRadio 0 { exRadio with
+      rxFifo := [{ pipe := 0, data := [0, 0, 0x40, 0, 7, 0, 5, 0, 1, 2, 3] }] } }
+
+example : RxNode exRxNode ∧
+    (exRxNode.w.radio (curNode exRxNode).rf.rid).rxFifo = [{ pipe := 0, data := [0, 0, 0x40, 0, 7, 0, 5, 0, 1, 2, 3] }] ∧
+    ((curNode exRxNode).frameBuf.unpack [0, 0, 0x40, 0, 7, 0, 5, 0, 1, 2, 3]).2 = true ∧
+    ((curNode exRxNode).frameBuf.unpack [0, 0, 0x40, 0, 7, 0, 5, 0, 1, 2, 3]).1.header.toNode = MULTICAST_TO ∧
+    isValid ((curNode exRxNode).frameBuf.unpack [0, 0, 0x40, 0, 7, 0, 5, 0, 1, 2, 3]).1.header.fromNode = true ∧
+    ((curNode exRxNode).frameBuf.unpack [0, 0, 0x40, 0, 7, 0, 5, 0, 1, 2, 3]).1.message = [1, 2, 3] :=
+  ⟨⟨⟨by decide, by decide⟩, rfl, rfl, ⟨by show (0 : Nat) < 1; omega, by decide, by decide⟩⟩, by decide, by decide,
+   by decide, Nrf.Proofs.Lease.isValid_of_node (ds := []) (by decide), by decide⟩
+
+/-- the re-broadcast, spelled out -/
+example (f : Nat) (n : Node) : relayMulticast f n = (do
+    if n.a.addr >>> 3 = 0 then sleepNs 2400000
+    sleepNs ((n.a.addr % 4) * 600000)
+    let _ ← nodeWrite f ((lvl2addr n.a.netLvl <<< 3) &&& 0xFFFF) TX_MULTICAST) := rfl
+
+/-- a level-1 relay that has just received a multicast frame -/
+def exReceiver : NetState :=
+  { nodes := [{ a := { addr := 0o3, netLvl := 1, mask := 7, maskInv := 0xFFF8, parent := 0, parentPipe := 3 },
+                relayEnabled := true,
+                frameBuf := { header := { fromNode := 0, toNode := 0o100, frameId := 7, msgType := .int 5 },
+                              message := [1, 2, 3] } }],
+    active := [0], w := World.fresh 1 }
+
+example : Good exReceiver ∧ (curNode exReceiver).cfg.allowMulticast = true ∧
+    (curNode exReceiver).frameBuf.header.toNode = MULTICAST_TO ∧
+    ¬ ((5 : Nat) = NETWORK_POLL ∧ (curNode exReceiver).a.addr ≠ NETWORK_DEFAULT_ADDR) ∧
+    (((curNode exReceiver).queue.enqueue (curNode exReceiver).frameBuf).1.frames.map (·.message)) = [[1, 2, 3]] :=
+  ⟨⟨by decide, by decide⟩, by decide, by decide, by decide, by decide⟩
+
+/-- **C14, the relay addresses the next level.**  `(_lvl_2_addr(l) << 3) & 0xFFFF = _lvl_2_addr(l + 1)`
+    for the levels 1..3 of the property (and for 4: the address of a level 5 on which no node can
+    sit, so nobody receives it); for level 0 — a master with the relay on — it is 0 again: the
+    master re-broadcasts to its own level, where nobody else is. -/
+theorem C14_relay_address :
+    (∀ l, 1 ≤ l → l ≤ 4 → (lvl2addr l <<< 3) &&& 0xFFFF = lvl2addr (relayLevel l)) ∧
+    (∀ l ∈ relayLevels, 1 ≤ l ∧ l ≤ 4 ∧ relayLevel l ≤ 4) ∧
+    (lvl2addr 0 <<< 3) &&& 0xFFFF = lvl2addr 0 :=
+  ⟨relay_addr, by decide, relay_addr_zero⟩
+
+example : lvl2addr 2 = 0o10 ∧ lvl2addr 3 = 0o100 ∧ (lvl2addr 2 <<< 3) &&& 0xFFFF = 0o100 := by decide
+
+/-- **C14, a NETWORK_POLL multicast is answered, not queued** (node with an address): no enqueue;
+    iff the node accepts children (`allow_children`) the poll is answered with a frame from the
+    node's address sent directly (`TX_PHYSICAL`) to the poll's sender after `parent_pipe` ms; the
+    queue is untouched, however the call ends (closed system included). -/
+theorem C14_handle_poll (f : Nat) (s : NetState)
+    (ham : (curNode s).cfg.allowMulticast = true)
+    (hto : (curNode s).frameBuf.header.toNode = MULTICAST_TO)
+    (haddr : (curNode s).a.addr ≠ NETWORK_DEFAULT_ADDR) :
+    nexec (handleOther (f + 1) NETWORK_POLL) s =
+      nexec (do
+        if (curNode s).parenthood then answerPoll f (curNode s)
+        pure (true, 0)) s ∧
+    (Good s → (curNode (nexec (handleOther (f + 1) NETWORK_POLL) s).2).queue = (curNode s).queue) :=
+  ⟨nexec_handleOther_poll f s ham hto haddr, fun g => handleOther_poll_queue f s g ham hto haddr⟩
+
+example : (curNode exReceiver).a.addr ≠ NETWORK_DEFAULT_ADDR ∧ (curNode exReceiver).parenthood = true := by
+  decide
+
+/-- **C14, `allow_multicast` off.**  Such a node never treats a frame for another address as a
+    multicast: `_handle_frame_for_other_node` does not enqueue; a node with an address forwards the
+    frame like any routed frame (`_write(to_node, TX_ROUTED)`), a node without one ignores it.
+    (For the master the routing rule sends a frame for 0o100 to "child 0", i.e. to itself, which
+    loops it back into its own queue — the master's private pipe-0 address is the level-0 address,
+    see `C14_off`.) -/
+theorem C14_handle_off (f msgT : Nat) (s : NetState)
+    (ham : (curNode s).cfg.allowMulticast = false) :
+    nexec (handleOther (f + 1) msgT) s =
+      if (curNode s).a.addr ≠ NETWORK_DEFAULT_ADDR then
+        nexec (do let _ ← nodeWrite f (curNode s).frameBuf.header.toNode TX_ROUTED
+                  pure (true, 0)) s
+      else (.ok (true, msgT), s) :=
+  nexec_handleOther_off f msgT s ham
+
+example : ({ nodes := [{ cfg := { allowMulticast := false } }], w := World.fresh 1 } : NetState)
+    |> fun s => (curNode s).cfg.allowMulticast = false := by decide
+
+/-! ## `allow_multicast` off: the node does not listen on a level address -/
+
+/-- **C14, private pipe 0.**  With `allow_multicast` off, pipe 0 of every tree node carries the
+    node's private address (the spec's unicast address of pipe 0), and this is the address of a
+    network level `L ∈ 0..5` — as nodes with `allow_multicast` on compute it — **only** for the master
+    and level 0, whose addresses coincide by the addressing scheme. -/
+theorem C14_off (cfg : AddrCfg) (hc : CfgOk cfg) (ham : cfg.allowMulticast = false)
+    (ds : List Nat) (hn : IsNode ds) :
+    ∃ a, physAddrSpec cfg.pfx cfg.sfx ds 0 = some a ∧ pipeAddress cfg (val ds) 0 = .ok a ∧
+      ∀ L, L ≤ 5 →
+        (pipeAddress cfg (val ds) 0 = pipeAddress { cfg with allowMulticast := true } (lvl2addr L) 0
+          ↔ ds = [] ∧ L = 0) := by
+  have hg := sfxFn_spec (sfx := cfg.sfx) hc.1
+  have hc' : SfxOk cfg.pfx cfg.sfx := hc
+  refine ⟨physFn cfg.pfx (sfxFn cfg.sfx) ds 0, physAddrSpec_eq hg hn.1 (Nat.zero_le 5),
+    pipeAddress_node hg hn (Nat.zero_le 5) (Or.inl ham), ?_⟩
+  intro L hL
+  rw [pipeAddress_listen hg hn (Nat.zero_le 5),
+    pipeAddress_levelFn (cfg := { cfg with allowMulticast := true }) hg rfl hL, ham]
+  constructor
+  · intro he
+    have := (listenFn_eq_level_iff hc' false hn (Nat.zero_le 5) hL).mp (Except.ok.inj he)
+    rcases this.2 with ⟨h, _⟩ | ⟨_, h1, h2⟩
+    · cases h
+    · exact ⟨h1, h2⟩
+  · rintro ⟨rfl, rfl⟩
+    exact congrArg Except.ok
+      ((listenFn_eq_level_iff hc' false (by decide) (Nat.zero_le 5) hL).mpr ⟨rfl, Or.inr ⟨rfl, rfl, rfl⟩⟩)
+
+example : CfgOk { allowMulticast := false } ∧ IsNode [3, 2] ∧
+    physAddrSpec 0xCC [0xC3, 0x3C, 0x33, 0xCE, 0x3E, 0xE3] [3, 2] 0 = some [0xC3, 0xCE, 0x33, 0xCC, 0xCC] ∧
+    levelAddrSpec 0xCC [0xC3, 0x3C, 0x33, 0xCE, 0x3E, 0xE3] 2 = some [0xCC, 0x33, 0xCC, 0xCC, 0xCC] ∧
+    levelAddrSpec 0xCC [0xC3, 0x3C, 0x33, 0xCE, 0x3E, 0xE3] 0 =
+      physAddrSpec 0xCC [0xC3, 0x3C, 0x33, 0xCE, 0x3E, 0xE3] [] 0 := by
+  decide
 
 end Nrf.Props.C14
